@@ -33,6 +33,8 @@ def plan(tier, seed):
     for i in range(3 if tier == "quick" else 12):
         specs.append({"name": f"ffx-shared-object{i}", "kind": "ffx_shared", "index": i})
     specs.append({"name": "contracts", "kind": "contracts"})
+    specs.append({"name": "shared-by-threads", "kind": "threads", "primitive_monitors": False,
+                  "rounds": 2 if tier == "quick" else 40, "budget_s": 90 if tier == "quick" else 400})
     for i in range(2 if tier == "quick" else 8):
         specs.append({"name": f"hostile-callers{i}", "kind": "hostile", "index": i,
                       "rounds": 12 if tier == "quick" else 400})
@@ -268,6 +270,89 @@ def _run_shard(spec, acc, ctx):
         insitu(spec, acc, ctx)
     elif kind == "hostile":
         hostile(spec, acc, ctx)
+    elif kind == "threads":
+        threads(spec, acc, ctx)
+
+
+def threads(spec, acc, ctx):
+    """One FFX cipher, one bit-PRP and one Luby-Rackoff PRP object, each shared by four threads that use different
+    keys, with a thread switch forced at every third statement of the toolkit: every thread must see exactly the
+    permutation a fresh object computes for its key (tables built single-threaded beforehand)."""
+    import os
+    import threading
+    from toolkit.bits import Bitset
+    from toolkit.symmetric_encryption.fpe import BitwiseFFX
+    import toolkit.prp as prp_mod
+    from vlib import instrument
+    rng = ctx.rng
+    repo = os.environ.get("VERIF_REPO", "/repo")
+    lr_cls = prp_mod.get_prp_implementation("HmacLubyRackoffPRP")
+    fpe_cls = prp_mod.get_prp_implementation("BitwiseFPEPRP")
+    for rnd in range(spec["rounds"]):
+        if ctx.out_of_time():
+            break
+        n = rng.randint(3, 4)
+        kl = rng.choice([16, 24, 32])
+        keys = [rng.randbytes(kl) for _ in range(4)]
+        ref_ffx = [[int(BitwiseFFX().encrypt(k, Bitset(x, n))) for x in range(1 << n)] for k in keys]
+        mlen, klen = 4, 24
+        lkeys = [rng.randbytes(klen) for _ in range(4)]
+        lmsgs = [rng.randbytes(mlen) for _ in range(12)]
+        ref_lr = [[lr_cls(message_length=mlen, key_length=klen)(k, m) for m in lmsgs] for k in lkeys]
+        ffx = BitwiseFFX()
+        prp = fpe_cls(message_bit_length=n, key_bit_length=kl * 8)
+        lr = lr_cls(message_length=mlen, key_length=klen)
+        bad = []
+        done = [0]
+        stop = threading.Event()
+
+        def worker(i):
+            def go():
+                for x in list(range(1 << n)) * 2:
+                    if stop.is_set():
+                        return
+                    try:
+                        y = int(ffx.encrypt(keys[i], Bitset(x, n)))
+                        back = int(ffx.decrypt(keys[i], Bitset(ref_ffx[i][x], n)))
+                        y2 = int(prp(Bitset(keys[i], kl * 8), Bitset(x, n)))
+                    except Exception as e:
+                        bad.append(("ffx", i, repr(e)[:80]))
+                        stop.set()
+                        return
+                    if y != ref_ffx[i][x] or back != x or y2 != ref_ffx[i][x]:
+                        bad.append(("ffx", i, f"x={x}: encrypt {y} / bit-PRP {y2}, a fresh object gives {ref_ffx[i][x]}; "
+                                              f"decrypt gives {back}"))
+                        stop.set()
+                        return
+                    done[0] += 1
+                for j, m in enumerate(lmsgs):
+                    if stop.is_set():
+                        return
+                    try:
+                        out = lr(lkeys[i], m)
+                    except Exception as e:
+                        out = repr(e)
+                    if out != ref_lr[i][j]:
+                        bad.append(("lr", i, f"message {j}: {out!r:.40} instead of the fresh object's output"))
+                        stop.set()
+                        return
+                    done[0] += 1
+            return go
+        with instrument.YieldInjector(repo, every=5) as yi:
+            errs = instrument.run_threads([worker(i) for i in range(4)], timeout=80)
+        acc.count("threads.calls_compared", done[0])
+        acc.count("threads.forced_switch_points", yi.yields)
+        acc.count("cases")
+        acc.add("distinct", fp("threads", rnd))
+        if any(isinstance(e, TimeoutError) for e in errs):
+            acc.count("threads.watchdog")
+            acc.note("thread workload hit its watchdog")
+        if bad:
+            which, i, what = bad[0]
+            acc.violation(f"{'ffx' if which == 'ffx' else 'lr'}:wrong-when-shared-by-threads",
+                          f"four threads share one {'FFX cipher / bit-PRP' if which == 'ffx' else 'Luby-Rackoff PRP'} "
+                          f"object, each with its own key: thread {i}: {what}", {"n": n, "threads": True, "hostile": True})
+            return
 
 
 def hostile(spec, acc, ctx):
@@ -516,6 +601,8 @@ def finish(m, tier, seed):
         inc.append("shared-cipher-object workload missing")
     if c.get("ffx.decrypt", 0) < 5000:
         inc.append("too few FFX inverse checks")
+    if c.get("threads.calls_compared", 0) < 100:
+        inc.append("the shared-by-threads workload observed too little")
     if c.get("hostile.lr_after_refusal", 0) < 10 or c.get("hostile.ffx_reused_key_buffer", 0) < 10:
         inc.append("hostile-caller workload missing")
     if c.get("insitu.prp_calls", 0) < 50 or len(m["sets"].get("insitu_schemes", [])) < 2:
@@ -543,6 +630,7 @@ def finish(m, tier, seed):
         "luby_rackoff_message_lengths": sorted(int(x) for x in m["sets"].get("lr_message_lengths", [])),
         "contract_checks": {k[9:]: v for k, v in c.items() if k.startswith("contract.")},
         "hostile_callers": {k[8:]: v for k, v in c.items() if k.startswith("hostile.")},
+        "objects_shared_by_four_threads": {k[8:]: v for k, v in c.items() if k.startswith("threads.")},
         "insitu": {k: v for k, v in c.items() if k.startswith("insitu.")},
     }
     return {"coverage": cov, "inconclusive": inc,
